@@ -519,8 +519,10 @@ pub fn build_pool(shipped_text: String, shipped_table: Vec<Entry>, n_rendered: u
         // 16, 32, 64 or 128 KiB, placed before the data, after it, or split around it.
         let mut big = "";
         if i % 8 == 7 {
-            let target_lines = *r.pick(&[340usize, 700, 1400, 2800]);
-            match r.below(3) {
+            // systematic, not drawn: the first 12 large images cover 4 sizes x 3 placements
+            let k = i / 8;
+            let target_lines = [340usize, 700, 1400, 2800][k % 4];
+            match (k / 4) % 3 {
                 0 => style.bulk_before = target_lines,
                 1 => style.bulk_after = target_lines,
                 _ => {
@@ -533,28 +535,44 @@ pub fn build_pool(shipped_text: String, shipped_table: Vec<Entry>, n_rendered: u
         // One image in eight takes liberties of debatable status; those are judged by O1 only.
         let mut strict = !far;
         if i % 8 == 3 {
+            // systematic: which liberties a lenient image takes depends on its rank, not on a draw
+            let k = i / 8;
             strict = false;
             style.indent_data = true;
-            style.trailing_blanks = r.chance(1, 2);
+            style.trailing_blanks = k % 2 == 1;
             // the next two make today's loader refuse the file (which is acceptable): keep most
             // lenient images loadable so that O1 has something to judge
-            style.blank_only_lines = r.chance(1, 4);
-            style.indent_comments = r.chance(1, 4);
-            style.mixed_endings = r.chance(1, 3);
+            style.blank_only_lines = k % 4 == 2;
+            style.indent_comments = k % 8 == 5;
+            style.mixed_endings = k % 3 == 1;
+        }
+        if i % 16 == 13 {
+            // the last line of the file is a data line without a line terminator
+            style.final_newline = false;
+            style.hash_line = false;
+            style.footer_lines = 0;
+            style.bulk_after = 0;
+            style.blank_lines = false;
+            style.crlf = (i / 16) % 2 == 1;
+        }
+        if i % 16 == 11 {
+            // (see below) a stray byte must be able to land in the trailing comment of a data line
+            style.trailing_comment = true;
         }
         // Long lines: comments are free text, nothing bounds their length. Up to 10 KB they are
         // judged strictly; beyond (longer than a 16 or 64 KiB line buffer) a loader may refuse.
         let mut long = "";
         if i % 8 == 5 {
-            let n = *r.pick(&[1100usize, 4200, 8300, 9900, 17_000, 70_000]);
-            if r.chance(1, 2) {
-                style.long_comment_line = n;
-            } else {
-                style.long_trailing_comment = n;
-            }
-            if r.chance(1, 4) {
-                style.long_comment_line = n;
-                style.long_trailing_comment = n / 2;
+            // systematic: the first 12 long-line images cover 6 lengths x {comment line, trailing}
+            let k = i / 8;
+            let n = [1100usize, 4200, 8300, 9900, 17_000, 70_000][k % 6];
+            match (k / 6) % 3 {
+                0 => style.long_comment_line = n,
+                1 => style.long_trailing_comment = n,
+                _ => {
+                    style.long_comment_line = n;
+                    style.long_trailing_comment = n / 2;
+                }
             }
             if n > 10_000 {
                 strict = false;
@@ -597,10 +615,26 @@ pub fn build_pool(shipped_text: String, shipped_table: Vec<Entry>, n_rendered: u
         if i % 16 == 11 {
             let mut b = text.clone().into_bytes();
             let hashes: Vec<usize> = (0..b.len()).filter(|&k| b[k] == b'#').collect();
+            // '#' that are not the first byte of their line: trailing comments of data lines
+            let trailing: Vec<usize> = hashes
+                .iter()
+                .copied()
+                .filter(|&k| k > 0 && b[k - 1] != b'\n' && {
+                    let ls = b[..k].iter().rposition(|&c| c == b'\n').map(|p| p + 1).unwrap_or(0);
+                    b[ls].is_ascii_digit()
+                })
+                .collect();
             if !hashes.is_empty() {
-                for _ in 0..r.urange(1, 3) {
-                    // just after a '#': inside a comment line or inside a trailing comment
-                    let at = *r.pick(&hashes) + 1;
+                let mut spots: Vec<usize> = Vec::new();
+                if !trailing.is_empty() {
+                    spots.push(*r.pick(&trailing) + 1); // always one in a data line's comment
+                }
+                if (i / 16) % 2 == 1 {
+                    spots.push(*r.pick(&hashes) + 1);
+                }
+                spots.sort_unstable();
+                spots.dedup();
+                for &at in spots.iter().rev() {
                     b.insert(at, *r.pick(&[0xE9u8, 0xFF, 0xC3, 0xA0]));
                 }
                 // positions shifted by earlier insertions still follow a '#' or a comment byte
